@@ -91,18 +91,41 @@ Lemma ex_consistent :
           ([], Delete (with_ns A [1001]))]) = true.
 Proof. vm_compute. reflexivity. Qed.
 
-(* FINDING (findings/C15-delete-ignores-namespace-bound-pods.md): a quota is deleted although a
-   pod is bound to it through a namespace it declares — ValidDeleteQuota lists pods by the
-   quota-name label only, hasQuotaBoundedPods (used for the is-parent flip) would find it *)
+(* FIXED FINDING (findings/C15-delete-ignores-namespace-bound-pods.md, repaired by commit 4aec535):
+   before the repair ValidDeleteQuota listed pods by the quota-name label only ([delete_code_old]),
+   so a quota was deleted although a pod was bound to it through a namespace it declares *)
+Definition delete_code_old (s : topo) (pods : list pod) (q : quota) : Z :=
+  if (q_name q =? SYSTEM) || (q_name q =? ROOT) || (q_name q =? DEFAULTQ) then 1
+  else match find (q_name q) (infos s) with
+       | None => 2
+       | Some _ =>
+           match find (q_name q) (hier s) with
+           | None => 3
+           | Some cs =>
+               if nonempty cs then 4
+               else if existsb (fun p => fst p =? q_name q) pods then 5
+               else 0
+           end
+       end.
 Definition Qns := with_ns (exq 3 (-1) false 1 1 20 20) [1000].
 Definition h_nsdel : list req := [([], Add Qns); ([(-1, 1000)], Delete Qns)].
-Lemma ex_delete_nsbound :
-  accepted (run (false, false) [([], Add Qns)]) ([(-1, 1000)], Delete Qns) = true
+Lemma ex_old_delete_nsbound_refuted :
+  delete_code_old (run (false, false) [([], Add Qns)]) [(-1, 1000)] Qns = 0
   /\ has_pods [(-1, 1000)] (q_name Qns) (ann_ns Qns) = true.
 Proof. vm_compute. split; reflexivity. Qed.
-Lemma ex_prop_code_21 : prop_code (false, false) h_nsdel (trace (init_topo (false, false)) h_nsdel) = 21.
+(* the repaired behaviour: refused (check 6), also for a pod in the namespace named like the quota;
+   the history passes the whole decision procedure *)
+Lemma ex_delete_nsbound_rejected :
+  code (run (false, false) [([], Add Qns)]) ([(-1, 1000)], Delete Qns) = 6
+  /\ code (run (false, false) [([], Add Qns)]) ([(-1, 3)], Delete Qns) = 6
+  /\ code (run (false, false) [([], Add Qns)]) ([(-1, 1001)], Delete Qns) = 0.
+Proof. vm_compute. repeat split; reflexivity. Qed.
+(* the decision procedure refuses an observed history in which such a deletion was admitted *)
+Lemma ex_prop_code_21 :
+  prop_code (false, false) h_nsdel
+    [(true, run (false, false) [([], Add Qns)]); (true, init_topo (false, false))] = 21.
 Proof. vm_compute. reflexivity. Qed.
-(* the same deletion is refused when the quota's is-parent flag is flipped instead *)
+(* the same pod makes the is-parent flip fail *)
 Lemma ex_flip_nsbound_rejected :
   code (run (false, false) [([], Add Qns)])
        ([(-1, 1000)], Update Qns (with_ns (exq 3 (-1) true 1 1 20 20) [1000])) = 5.
